@@ -296,6 +296,42 @@ def rootsOk (s : RawSchema) : Bool :=
 
 end Spec
 
+/-! ### inhabitation of input objects (newer specification text; NOT part of `TypeSystemValid`)
+
+Every input object type must have at least one finite value.  For ordinary input objects this is
+the unbreakable-cycle rule above; for OneOf input objects — where exactly one field must be set to
+a non-null value — the transcribed revision only requires "nullable, no default", newer text also
+requires a value to exist.  `uninhabited` is the oracle the check uses to recognise that gap. -/
+
+/-- a non-null value of type `t` exists, given the input objects already known to have one -/
+def Spec.hasNonNullValue (s : RawSchema) (known : List Str) : TRef → Bool
+  | .nonNull t => Spec.hasNonNullValue s known t
+  | .list _ => true
+  | .named n => !s.isInputObject n || known.contains n
+
+/-- one round of the least fixpoint: the input objects that have a value built from `known` -/
+def Spec.inhabitedStep (s : RawSchema) (known : List Str) : List Str :=
+  s.types.filterMap (fun t =>
+    match t.defn with
+    | .input fs oneOf =>
+      let ok :=
+        if oneOf then fs.any (fun f => Spec.hasNonNullValue s known f.type)
+        else fs.all (fun f => !Spec.required f || Spec.hasNonNullValue s known f.type)
+      if ok then some t.name else none
+    | _ => none)
+
+def Spec.inhabitedIter (s : RawSchema) : Nat → List Str → List Str
+  | 0, known => known
+  | n + 1, known => Spec.inhabitedIter s n (Spec.inhabitedStep s known)
+
+/-- the input object types of the schema that have no finite value -/
+def Spec.uninhabited (s : RawSchema) : List Str :=
+  let known := Spec.inhabitedIter s (s.types.length + 1) []
+  s.types.filterMap (fun t =>
+    match t.defn with
+    | .input _ _ => if known.contains t.name then none else some t.name
+    | _ => none)
+
 /-- The schema satisfies the specification's type-system validation rules. -/
 def Spec.TypeSystemValid (s : RawSchema) : Bool :=
   Spec.rootsOk s && s.directives.all (Spec.directiveOk s) && s.types.all (Spec.typeOk s)
